@@ -49,9 +49,10 @@ Init == c \in { x \in Cases : x[2] \in Classes(Table[x[1]].tclass) }
 Next == UNCHANGED c
 Spec == Init /\ [][Next]_c
 
-\* every skip predicate named in the sources is one this model understands
+\* a skip predicate this model does not understand: it is assumed to skip nothing here (the value replay decides)
 PredsKnown == LET row == Table[c[1]] IN (row.skip \in {"never", "always"}) \/ PredName(row) \in KnownPreds
 Emit == LET row == Table[c[1]] IN
         PrintT(<<"CASE", ToJson([crate |-> row.crate, struct |-> row.struct, field |-> row.field, class |-> c[2],
-                                 lossless |-> Lossless(row, c[2]), back |-> Deser(row, Ser(row, c[2]))])>>)
+                                 lossless |-> Lossless(row, c[2]), back |-> Deser(row, Ser(row, c[2])),
+                                 unknown_pred |-> ~PredsKnown, pred |-> row.skip])>>)
 =============================================================================
